@@ -99,11 +99,14 @@ func (sn *roSnap) changed(s *dns.SIG, k *dns.KEY, buf []byte) string {
 		}
 		return "the message buffer"
 	}
-	if *s != sn.s {
-		return "the SIG"
+	// the exported fields, one by one (a private cache inside the structs would be the library's business)
+	a, b := s, &sn.s
+	if a.Hdr != b.Hdr || a.TypeCovered != b.TypeCovered || a.Algorithm != b.Algorithm || a.Labels != b.Labels || a.OrigTtl != b.OrigTtl ||
+		a.Expiration != b.Expiration || a.Inception != b.Inception || a.KeyTag != b.KeyTag || a.SignerName != b.SignerName || a.Signature != b.Signature {
+		return "the SIG it was called on (" + b.String() + " -> " + a.String() + ")"
 	}
-	if sn.hasK && *k != sn.k {
-		return "the KEY"
+	if sn.hasK && (k.Hdr != sn.k.Hdr || k.Flags != sn.k.Flags || k.Protocol != sn.k.Protocol || k.Algorithm != sn.k.Algorithm || k.PublicKey != sn.k.PublicKey) {
+		return "the KEY it was given"
 	}
 	return ""
 }
@@ -219,8 +222,7 @@ func oracleObserved(r *Rng, keys []keyPair) {
 	now := uint32(time.Now().Unix())
 	for ki, kp := range keys {
 		// other material, same owner, same family: the call goes all the way to the signature check
-		kOther := *kp.key
-		kOther.PublicKey = mkKey(kp.key.Hdr.Name, kp.key.Algorithm, keyBits(kp)).key.PublicKey
+		kOther := otherMaterial(kp)
 		for mi, nextra := range []int{0, 3, 255, -1} {
 			var m *dns.Msg
 			if nextra < 0 {
@@ -305,6 +307,21 @@ func oracleObserved(r *Rng, keys []keyPair) {
 			}
 		}
 	}
+}
+
+// otherMaterial: kp's KEY with the public key of another, freshly generated key of
+// the same algorithm (made once per key).
+var otherMaterialCache = map[*dns.KEY]string{}
+
+func otherMaterial(kp keyPair) dns.KEY {
+	pub, ok := otherMaterialCache[kp.key]
+	if !ok {
+		pub = mkKey(kp.key.Hdr.Name, kp.key.Algorithm, min(keyBits(kp), 1024)).key.PublicKey
+		otherMaterialCache[kp.key] = pub
+	}
+	k := *kp.key
+	k.PublicKey = pub
+	return k
 }
 
 // keyBits: the size to hand Generate for another key like kp.
